@@ -20,13 +20,14 @@ TOL_REL = 2e-6        # [pvv], standard deviations, covariances
 TOL_3DEC = 0.0021     # values printed with 3 decimals
 
 RULE = ("every cluster kind (obs with directions/distances dim<=4, height-differences dim<=4, coordinates dim 2..5, vectors dim 3 and 6) "
-        "x every composition x every band 0..dim-1 x 2 position-coded positive-definite families x every subset of excluded rows "
+        "x every composition x every band 0..dim-1 x 3 position-coded positive-definite families (the third one with every variance == sigma-apr^2 EXACTLY, "
+        "cofactor diagonal exactly 1, non-zero covariances; quick: bands >= 1 with at most one excluded row) x every subset of excluded rows "
         "(excluded by a target without coordinates or by a gross absolute term) x 4 algorithms, in determined noisy networks; "
         "SHARED UNKNOWNS: every ordered pair and every ordered triple (quick: triples of a 7-cluster menu) of 19 correlated clusters "
         "(distances, directions, s-distances, z-angles, repeated distances, coordinates, height differences, vectors; dim 2..6) that refer to the same two new points, "
         "written before / after / around an uncorrelated backbone, in a network whose aligned pairs of points make gama store EXPLICIT ZERO coefficients inside the "
         "correlated clusters (bearing exactly 0: sin == 0; dy == 0 / dz == 0 for s-distances and z-angles: whole columns of a block that hold only zeros or -0.0), "
-        "with the control geometry (x and y exchanged: 1e-16 instead of 0) x matrix forms per cluster (full band, band 1, diagonal matrix written with band 1 / full band) "
+        "with the control geometry (x and y exchanged: 1e-16 instead of 0) x matrix forms per cluster (full band, band 1, diagonal matrix written with band 1 / full band, unit-variance family with full band) "
         "x one excluded group of rows in either cluster of a pair x 4 algorithms; "
         "oracles: (a) linear kinds = dense WLS with P=(C_active)^-1 (x, v, [pvv], dof, C_xx); (b) band 0 = stdev attributes, and a diagonal matrix written with band >= 1 "
         "(explicit zero covariances) = stdev attributes / band 0; "
@@ -59,10 +60,14 @@ def enum_cases(tier):
                 tmpls = [1, 2]
             for tmpl in tmpls:
                 for band in range(d):
-                    for fam in (0, 1):
+                    for fam in (0, 1, 2):
                         if not thorough and d >= 4 and kind != "coordinates" and fam == 1:
                             continue
+                        if not thorough and fam == 2 and band == 0:
+                            continue             # unit variances without covariances: covered by thorough
                         for excl in subsets(d):
+                            if not thorough and fam == 2 and len(excl) > 1:
+                                continue
                             for mode in ("blunder", "point"):
                                 if mode == "point" and not M.aligned(kind, comp, excl):
                                     continue
@@ -378,21 +383,25 @@ def enum_multi(tier):
                 add(pr, fm)                                  # x 2 backbones x 3 places of the backbone
             for f in M.MULTI_FORMS:
                 add(pr, (f, f), geom=1, bb=lin_bb(pr))       # x 3 places of the backbone
+            add(pr, ("U", "U"))
+            add(pr, ("U", "F1"), bb=lin_bb(pr)); add(pr, ("Z", "U"), bb=lin_bb(pr))
         else:
             for f in ("F0", "F1", "Z"):
                 add(pr, (f, f))
+            if menu.index(pr[0]) < menu.index(pr[1]):
+                add(pr, ("U", "U"))              # unit-variance family: one order per pair (thorough: both)
             if not all(M.multi_linear(a) for a in pr):
                 add(pr, ("F0", "F0"), geom=1)
     # every ordered triple
     tmenu = menu if thorough else QUICK_TRIPLE_MENU
     for tr in itertools.permutations(tmenu, 3):
         if thorough:
-            for k, f in enumerate(("F0", "Z")):
+            for k, f in enumerate(("F0", "Z", "U")):
                 add(tr, (f, f, f), bpos=(len(out) + k) % 3, bb=lin_bb(tr))
             for r in range(3):
                 add(tr, [("F0", "F1", "Zf")[(r + i) % 3] for i in range(3)], bpos=(len(out) + r) % 3, bb=lin_bb(tr), geom=r % 2)
         else:
-            for f in ("F0", "F1", "Z"):
+            for f in ("F0", "Z"):
                 add(tr, (f, f, f))
     # one excluded group in one of the clusters of a pair
     for n, pr in enumerate(pairs):
@@ -685,7 +694,7 @@ def main():
                      "bound": {"tier": ck.tier, "cases": len(cases), "shared_unknown_cases": len(multis), "malformed_inputs": len(mals),
                                "family_condition_max": round(worst, 2)}},
               assumptions=["lattice networks {0,100,200}^2 x heights {0,10,30}, 1-2 new points, exact approximate coordinates, no instrument heights, sigma-apr 10, errors +-0.8 sigma",
-                           "covariance values from two fixed diagonally dominant families (condition < 20); other reals are not covered",
+                           "covariance values from three fixed diagonally dominant families (condition < 20; the third has all variances == sigma-apr^2 == 100 exactly); other reals are not covered",
                            "(a) only for the linear kinds; (b) only where stdev attributes exist (obs, height-differences); (c) only where the deleted input is expressible "
                            "(coordinates: xy / z groups, vectors: whole vectors); (d) only for clusters repeating one quantity (the general L^-1 transform is not expressible as an input; (a) is the whitening check there)",
                            "shared unknowns: one fixed 3-D network (4 fixed, 2 new points; A->P, B->Q, P->D aligned with +x, B and Q at the same height), errors 0.5..1.1 sigma "
